@@ -85,7 +85,10 @@ func Settle() bool {
 // Grace lets asynchronous runtime events that no goroutine is waiting to
 // produce (an expiring timer) happen before Settle is consulted.
 func Grace() {
-	time.Sleep(time.Duration(Slow) * 400 * time.Microsecond)
+	for i := 0; i < 3; i++ {
+		time.Sleep(time.Duration(Slow) * 700 * time.Microsecond)
+		Settle()
+	}
 }
 
 // Call runs f in its own goroutine and waits until it has returned or the
